@@ -10,6 +10,7 @@
 //	...stubborn...  a healthy plugin that does not exit when its connection is closed (syncfail behaves so, too)
 //	...cfgfail...   registers, then fails its configuration; does not exit on its own either
 //	...reidx...     a healthy plugin that registers as 90-renamed whatever its file is called
+//	...dieafter...  handles its first creation request, then exits between requests
 //
 // Every probe returns one update, for the container "syncupd-<its file name>", from Synchronize and
 // reports the state it was given (counts, first and last ids, a hash of all ids in order).
@@ -120,9 +121,18 @@ func (plugin) CreateContainer(_ context.Context, _ *api.PodSandbox, c *api.Conta
 	if strings.Contains(base, "dielater") {
 		os.Exit(3)
 	}
+	if strings.Contains(base, "dieafter") {
+		// answers this request properly and is gone a moment later, between two requests
+		go func() { time.Sleep(40 * time.Millisecond); os.Exit(4) }()
+	}
 	a := &api.ContainerAdjustment{}
 	a.AddAnnotation("probe."+base, c.GetId())
 	return a, nil, nil
+}
+
+func (plugin) StopContainer(_ context.Context, _ *api.PodSandbox, c *api.Container) ([]*api.ContainerUpdate, error) {
+	appendLine("stoporder."+c.GetId()+".log", fmt.Sprintf("%d %s", time.Now().UnixNano(), base))
+	return nil, nil
 }
 
 // staysAround: this probe ignores the loss of its connection: only a kill gets rid of it
